@@ -20,18 +20,39 @@ theorem mapNotFound_ok (r : Result) : mapNotFound r = .ok ↔ r = .ok := by
   unfold mapNotFound
   split <;> simp_all
 
-/-- **C35 (1)** Exactly once: whenever the download reports success, the destination is exactly
+/-- every close-delimited answer in the scripts carries the whole blob -/
+def Honest (blobLen : Nat) (origins : Option (List (List Resp))) : Prop :=
+  ∀ os, origins = some os → ∀ o ∈ os, ∀ r ∈ o, r.honest blobLen
+
+/-- "success ⇒ the destination received the blob exactly once", for every script whatsoever. -/
+def download_exactly_once_target : Prop :=
+  ∀ (cfg : Cfg) (dst : Dst) (origins : Option (List (List Resp))), cfg.guarded = true →
+    (download cfg dst origins).2 = .ok → (download cfg dst origins).1.dst = dst.write cfg.blob
+
+/-- It fails for a response that is delimited only by the end of the connection (no Content-Length,
+no chunked framing): a drop after 2 of 5 bytes is read as the end of the body, `io.Copy` returns nil
+and the download reports success with 2 bytes.  HTTP gives the client no way to notice; only a
+check of the received bytes against the requested digest would. -/
+theorem not_download_exactly_once : ¬ download_exactly_once_target := by
+  intro h
+  have := h { blob := [1, 2, 3, 4, 5] } { kind := .plain, data := [] } (some [[.eof 2]]) rfl (by decide)
+  exact absurd this (by decide)
+
+/-- **C35 (1)** Exactly once (`_partial`: every script in which no close-delimited response is cut
+short; responses with a Content-Length or chunked framing, closed connections and statuses are
+unrestricted): whenever the download reports success, the destination is exactly
 the initial destination with the blob written to it once (appended for an `io.Writer`; written
 at the initial offset, nothing else touched, offset advanced by its length for a seekable one)
 — whatever the origins did before the successful request. -/
-theorem download_exactly_once (cfg : Cfg) (hg : cfg.guarded = true) (dst : Dst)
-    (origins : Option (List (List Resp))) (hok : (download cfg dst origins).2 = .ok) :
+theorem download_exactly_once_partial (cfg : Cfg) (hg : cfg.guarded = true) (dst : Dst)
+    (origins : Option (List (List Resp))) (hh : Honest cfg.blob.length origins)
+    (hok : (download cfg dst origins).2 = .ok) :
     (download cfg dst origins).1.dst = dst.write cfg.blob := by
   cases origins with
   | none => simp [download] at hok
   | some os =>
     simp only [download, hg, if_true] at hok ⊢
-    exact pollFrom_good cfg hg dst os 0 { dst := dst } (good_init dst cfg.blob) ((mapNotFound_ok _).mp hok)
+    exact pollFrom_good cfg hg dst os 0 { dst := dst } (good_init dst cfg.blob) (hh os rfl) ((mapNotFound_ok _).mp hok)
 
 /-- what "written once" means for the two destination kinds -/
 theorem written_once_plain (d : Dst) (h : d.kind = .plain) (blob : List Byte) :
@@ -43,8 +64,11 @@ theorem written_once_seek (d : Dst) (h : d.kind = .seek) (blob : List Byte) (hb 
   rw [write_seek d h]; simp [ow, hb]
 
 /-- **C35 (2)** If no origin ever delivers the whole blob, the call fails (also when the resolver
-fails or resolves to no origin).  Holds with and without the guard. -/
+fails or resolves to no origin), for scripts whose close-delimited responses are complete (a
+close-delimited response cut short is reported as success, see `not_download_exactly_once`).
+Holds with and without the guard. -/
 theorem download_fails_without_delivery (cfg : Cfg) (dst : Dst) (origins : List (List Resp))
+    (hh : ∀ o ∈ origins, ∀ r ∈ o, r.honest cfg.blob.length)
     (hnone : ∀ o ∈ origins, ∀ r ∈ o, r.delivers cfg.blob.length = false) :
     (download cfg dst (some origins)).2 ≠ .ok := by
   intro hok
@@ -53,7 +77,7 @@ theorem download_fails_without_delivery (cfg : Cfg) (dst : Dst) (origins : List 
     split at hok
     · exact (mapNotFound_ok _).mp hok
     · exact hok
-  obtain ⟨o, ho, r, hr, hd⟩ := pollFrom_ok cfg origins 0 _ hpoll
+  obtain ⟨o, ho, r, hr, hd⟩ := pollFrom_ok cfg origins 0 _ hh hpoll
   rw [hnone o ho r hr] at hd
   exact absurd hd (by simp)
 
